@@ -66,6 +66,9 @@ def asNode? : Nat → Json → Option Node
       pure (.forRange (← asStr? v) (← asNat? n) (← (asArr? body).bind (mapM? (asNode? fuel))))
     | [.str "ifeq", v, k, body] =>
       pure (.ifEq (← asStr? v) (← asNat? k) (← (asArr? body).bind (mapM? (asNode? fuel))))
+    | [.str "included", body] => pure (.included (← (asArr? body).bind (mapM? (asNode? fuel))))
+    | [.str "isolated", as, body] =>
+      pure (.isolated (← (asArr? as).bind (mapM? asKw?)) (← (asArr? body).bind (mapM? (asNode? fuel))))
     | [.str "break"] => pure .brk
     | [.str "continue"] => pure .cont
     | [.str "fail"] => pure .fail
